@@ -146,7 +146,7 @@ Print Assumptions C05_occlusion_zero_outside.
    every H, W (non-square included), C and grid size *)
 Theorem C05_sobol_zero_inert :
   forall (score : list Qc -> list Qc -> Qc) pf g H W C bs n A B x t (R : nat -> bool) i,
-    1 <= bs -> is_matrix n (g * g) A -> is_matrix n (g * g) B -> i < g * g ->
+    bs_valid bs -> is_matrix n (g * g) A -> is_matrix n (g * g) B -> i < g * g ->
     (forall x x' t, length x = length x' ->
         (forall k, R (k / C) = true -> nthq x k = nthq x' k) -> score x t = score x' t) ->
     (forall pos, pos < H * W -> nb_idx g H (pos / W) * g + nb_idx g W (pos mod W) = i -> R pos = false) ->
@@ -165,7 +165,7 @@ Print Assumptions C05_sobol_zero_inert.
    value is attained at a cell that touches the region (as soon as one exists) *)
 Theorem C05_sobol_inert_minimal :
   forall (score : list Qc -> list Qc -> Qc) pf g H W C bs n A B x t (R : nat -> bool) i j,
-    1 <= bs -> 2 <= n -> is_matrix n (g * g) A -> is_matrix n (g * g) B -> i < g * g -> j < g * g ->
+    bs_valid bs -> 2 <= n -> is_matrix n (g * g) A -> is_matrix n (g * g) B -> i < g * g -> j < g * g ->
     ignores_outside C R score -> inert_cell g H W R i = true ->
     let low := nth 0 (sobol_explain score jansen pf g H W C bs n (replicated_design (g * g) A B) [x] [t]) [] in
     (nthq low i <= nthq low j)%Qc.
@@ -214,3 +214,24 @@ Proof.
   repeat split; try reflexivity.
   intros x x' t [_ H]. rewrite (H 8), (H 9) by reflexivity. reflexivity.
 Qed.
+
+(* ------------------------------------------------------------------ refuted for Homma / Saltelli (finding)
+   The property says "Sobol assigns them zero before upsampling" for all estimators.  The faithful model refutes it
+   for HommaEstimator and SaltelliEstimator: an inert cell receives exactly 1/n (the 1/n moment is divided by the
+   unbiased variance); GlenEstimator gives -1/(n-1) (observed on the implementation; needs sqrt, not stated here).
+   Witness: 1x2 image, 2x2 grid, n = 2, score = first feature; cell 0 is read by no pixel. *)
+Theorem C05_sobol_zero_inert_refuted_homma_saltelli :
+  exists (score : list Qc -> list Qc -> Qc) pf g H W C bs n A B x t (R : nat -> bool) i,
+    bs_valid bs /\ is_matrix n (g * g) A /\ is_matrix n (g * g) B /\ i < g * g /\
+    ignores_outside C R score /\ inert_cell g H W R i = true /\
+    let low est := nth 0 (sobol_explain score est pf g H W C bs n (replicated_design (g * g) A B) [x] [t]) [] in
+    nthq (low jansen) i = 0%Qc /\ nthq (low janon) i = 0%Qc /\
+    nthq (low homma) i = (1 / qn n)%Qc /\ nthq (low saltelli) i = (1 / qn n)%Qc /\ (1 / qn n)%Qc <> 0%Qc.
+Proof.
+  exists refut_score, (fun _ => Baseline [0%Qc; 0%Qc]), 2, 1, 2, 1, None, 2, refut_A, refut_B,
+         [1%Qc; 1%Qc], [], refut_R, 0.
+  destruct sobol_zero_inert_refuted_homma_saltelli as (H1 & H2 & H3 & H4 & H5 & H6 & H7 & H8 & H9 & H10).
+  assert (E : (1 / qn 2)%Qc = q 1 2) by (apply Qceqb_eq; vm_compute; reflexivity).
+  repeat split; try assumption; try (apply H2); try (apply H3); try lia; cbv zeta; rewrite ?E; assumption.
+Qed.
+Print Assumptions C05_sobol_zero_inert_refuted_homma_saltelli.
